@@ -387,7 +387,7 @@ def pe_read_imports(blob):
     return D
 
 
-def pe_build(plus, nsec, ndirs, variant, optpad=0, imports=None):
+def pe_build(plus, nsec, ndirs, variant, optpad=0, imports=None, imp_sec=1):
     """minimal well-formed PE32/PE32+ image with nsec sections; optpad extra bytes follow the data
     directories inside the optional header (SizeOfOptionalHeader covers them); imports (a menu of
     IMPORT_MENUS) places an import directory at offset 0x40 of the second section"""
@@ -420,11 +420,11 @@ def pe_build(plus, nsec, ndirs, variant, optpad=0, imports=None):
     blob += struct.pack("<IHHIIIHH", 0x4550, 0x8664 if plus else 0x14C, nsec, 0x5F000000 + variant, 0, 0, optsz, 0x22 if plus else 0x102)
     blob += struct.pack(optfmt, *vals)
     imp = None
-    if imports and nsec >= 2 and ndirs >= 2:
-        imp = pe_import_blob(plus, secs[1]["RVA"] + 0x40, IMPORT_MENUS[imports])
+    if imports and nsec > imp_sec and ndirs >= 2:
+        imp = pe_import_blob(plus, secs[imp_sec]["RVA"] + 0x40, IMPORT_MENUS[imports])
     for i in range(ndirs):
         if i == 1 and imp:
-            blob += struct.pack("<II", secs[1]["RVA"] + 0x40, imp[1])
+            blob += struct.pack("<II", secs[imp_sec]["RVA"] + 0x40, imp[1])
         else:
             blob += struct.pack("<II", 0x3000 + 0x10 * i if i in (2, 5) else 0, 0x10 * i if i in (2, 5) else 0)
     blob += b"\xEE" * optpad
@@ -433,7 +433,7 @@ def pe_build(plus, nsec, ndirs, variant, optpad=0, imports=None):
     blob = blob.ljust(sizeofheaders, b"\0")
     for i, s in enumerate(secs):
         body = bytearray(((j * 3 + i * 17 + 1) & 0xFF) for j in range(s["SizeOfRawData"]))
-        if i == 1 and imp:
+        if i == imp_sec and imp:
             assert 0x40 + len(imp[0]) <= min(s["SizeOfRawData"], s["VirtualSize"])
             body[0x40:0x40 + len(imp[0])] = imp[0]
         blob += bytes(body)
